@@ -52,7 +52,7 @@ type act struct {
 type scenario struct {
 	Seed uint64 `json:"env_seed"`
 	Acts []act  `json:"acts"`
-	// loop scenario: per tick "match" | "foreign" | "none" | "late" | "dup"
+	// loop scenario: per tick "match" | "foreign" | "none" | "late" | "dup" | "writefail" | "writeblock"
 	Loop []string `json:"loop,omitempty"`
 }
 
@@ -64,6 +64,7 @@ type result struct {
 	Loop    int64 // -1 not run, 0 alive (stopped by the harness), 1 dead (pong missed)
 	Fail    string
 	Viol    [][2]string
+	Slow    bool // the machine was too slow to answer within the real ping timeout: run not judged
 }
 
 func pending(c *mtproto.Conn) []int64 {
@@ -134,10 +135,10 @@ func runScript(sc scenario) (res result) {
 	for _, a := range sc.Acts {
 		switch a.Op {
 		case "failsend":
-			env.Pipe.FailSend = errors.New("scripted send failure")
+			env.Pipe.SetFail(errors.New("scripted send failure"))
 			failing = true
 		case "oksend":
-			env.Pipe.FailSend = nil
+			env.Pipe.SetFail(nil)
 			failing = false
 		case "start":
 			ctx, cancel := context.WithCancel(env.Ctx)
@@ -252,7 +253,7 @@ func withID(l []int64, id int64) []int64 {
 	return out
 }
 
-const pingTimeout = 150 * time.Millisecond
+const pingTimeout = 500 * time.Millisecond
 
 func runLoop(sc scenario) (res result) {
 	ids := make([]int64, len(sc.Loop))
@@ -281,9 +282,45 @@ func runLoop(sc scenario) (res result) {
 	dead := false
 	for k, mode := range sc.Loop {
 		id := ids[k]
+		if mode == "writefail" || mode == "writeblock" {
+			// the ping cannot be written: the send fails at once, or blocks like a write on a
+			// half-open link until the ping's deadline and then fails with an i/o timeout
+			if mode == "writefail" {
+				env.Pipe.SetFail(mtx.ErrIOTimeout)
+			} else {
+				env.Pipe.SetBlock(true)
+			}
+			sentAt := time.Now()
+			env.Clock.Travel(time.Minute)
+			select {
+			case err := <-done:
+				if err == nil || !strings.Contains(err.Error(), "pong missed") {
+					viol("loop-ended-without-error", fmt.Sprintf("keep-alive loop ended with %v after a ping that could not be written", err))
+				}
+				if mode == "writeblock" && time.Since(sentAt) < pingTimeout-20*time.Millisecond {
+					viol("loop-ended-before-timeout", fmt.Sprintf("keep-alive loop ended %v after the tick, before the %v timeout", time.Since(sentAt), pingTimeout))
+				}
+			case <-time.After(pingTimeout + 3*time.Second):
+				viol("loop-survives-unwritable-ping", fmt.Sprintf("the ping of tick %d could not be written (%s) and no pong can arrive, but the keep-alive loop is still running 3 s after the %v ping timeout", k, mode, pingTimeout))
+				res.Fail = "loop alive"
+				return
+			}
+			after := pending(env.Conn)
+			res.Events = append(res.Events, ev{0, id, 1})
+			res.Pending = append(res.Pending, withID(after, id))
+			if mode == "writeblock" {
+				res.Events = append(res.Events, ev{3, int64(k), 0})
+				res.Pending = append(res.Pending, withID(after, id))
+			}
+			res.Events = append(res.Events, ev{1, int64(k), 0})
+			res.Pending = append(res.Pending, after)
+			dead = true
+			break
+		}
 		// exactly one tick per round
 		var f mtx.Frame
 		got := false
+		tickAt := time.Now() // the ping cannot have been sent before the tick
 		env.Clock.Travel(time.Minute)
 		select {
 		case raw := <-env.Pipe.Sent:
@@ -316,11 +353,16 @@ func runLoop(sc scenario) (res result) {
 				pong(id + 500)
 			}
 			pong(id)
+			answered := time.Since(sentAt)
 			if mode == "dup" {
 				pong(id)
 			}
 			select {
 			case err := <-done:
+				if answered > pingTimeout/2 { // our own pong came too late (loaded machine): not a verdict
+					res.Slow = true
+					return
+				}
 				viol("loop-ended-despite-pong", fmt.Sprintf("keep-alive loop ended with %v although the pong for ping %d arrived in time", err, id))
 				res.Fail = "loop ended"
 				return
@@ -334,7 +376,7 @@ func runLoop(sc scenario) (res result) {
 			}
 			select {
 			case err := <-done:
-				el := time.Since(sentAt)
+				el := time.Since(tickAt) // upper bound of the real elapsed time since the ping was sent
 				if err == nil || !strings.Contains(err.Error(), "pong missed") {
 					viol("loop-ended-without-error", fmt.Sprintf("keep-alive loop ended with %v after a missed pong", err))
 				}
@@ -467,6 +509,10 @@ func main() {
 			c.Violate("scenario-hang", "the ping scenario did not finish within 40 s", -1, 0, sc)
 			return
 		}
+		if r.Slow {
+			c.Count("skipped:machine-too-slow-for-real-ping-timeout")
+			return
+		}
 		sh, ix := -1, 0
 		if r.Fail == "" {
 			sh, ix = c.Case(coqCase(r), map[string]interface{}{"scenario": sc, "events": r.Events, "pending": r.Pending, "loop": r.Loop})
@@ -514,7 +560,10 @@ func main() {
 	one("loop:late", scenario{Seed: 6, Loop: []string{"late"}})
 	one("loop:match-x2-then-none", scenario{Seed: 6, Loop: []string{"match", "dup", "none"}})
 	one("loop:match-only", scenario{Seed: 6, Loop: []string{"match", "match"}})
-	modes := []string{"match", "dup", "foreign", "none", "late"}
+	one("loop:writefail", scenario{Seed: 6, Loop: []string{"writefail"}})
+	one("loop:writeblock", scenario{Seed: 6, Loop: []string{"writeblock"}})
+	one("loop:match-then-writeblock", scenario{Seed: 6, Loop: []string{"match", "writeblock"}})
+	modes := []string{"match", "dup", "foreign", "none", "late", "writefail", "writeblock"}
 	for i := 0; i < c.N(6, 200); i++ {
 		n := c.Rng.Range(1, 3)
 		l := make([]string, n)
@@ -523,6 +572,6 @@ func main() {
 		}
 		one("loop:random", scenario{Seed: c.Rng.U64(), Loop: l})
 	}
-	c.Obs.Rule = "scripted scenarios on a real Conn: up to 3 concurrent Ping calls with scripted ping ids (equal ids included), pongs with matching / foreign / duplicated ids before the ping exists, while it waits and after it returned, caller cancellation, a failing write; keep-alive loop rounds (fake-clock ticker, 150 ms real ping timeout) answered by a matching, duplicated, foreign, late or no pong. Every distinct scenario counts (all contain at least one ping)"
+	c.Obs.Rule = "scripted scenarios on a real Conn: up to 3 concurrent Ping calls with scripted ping ids (equal ids included), pongs with matching / foreign / duplicated ids before the ping exists, while it waits and after it returned, caller cancellation, a failing write; keep-alive loop rounds (fake-clock ticker, 500 ms real ping timeout) answered by a matching, duplicated, foreign, late or no pong, or whose ping write fails / blocks until the deadline (half-open link). Every distinct scenario counts (all contain at least one ping)"
 	c.Finish()
 }
